@@ -116,10 +116,16 @@ theorem createMapped_shape (lhs : Node) (pos : String) (n? : Option Node) (s : S
         unfold BCtx.noMatchAt at h
         cases h; exact ⟨_, rfl⟩
       | some c =>
-        right
         simp only [pure] at h
-        cases h
-        exact ⟨n, c, w, rfl, hc, rfl⟩
+        by_cases he : (c.returnsError && !ctx.retError) = true
+        · left
+          simp only [he, ↓reduceIte] at h
+          unfold BCtx.noMatchAt at h
+          cases h; exact ⟨_, rfl⟩
+        · right
+          simp only [he, Bool.false_eq_true, ↓reduceIte] at h
+          cases h
+          exact ⟨n, c, w, rfl, hc, rfl⟩
     | error e => simp [hc] at h
     | panic p => simp [hc] at h
 
